@@ -106,7 +106,7 @@ fn explore_pair(run: &Run, start: &Node, cfg: &AlphaCfg, d2: usize, features: &s
                 run.transition();
                 let so = eng.step(&p.s, &a);
                 let ro = apply_raw(&p.r, &a);
-                let replay = json!({"restart_point": start.replay_json(None), "continuation_from_restart": p.s.path[start.path.len()..].to_vec(), "next": a.json()});
+                let replay = json!({"restart_point": start.replay_json(None), "continuation_from_restart": p.s.labels()[start.path_len()..].to_vec(), "next": a.json()});
                 match (so, ro) {
                     (_, Err(c)) => {
                         run.outcome(&format!("restarted-lineage-panicked(reported under C09):{}", c));
@@ -123,7 +123,7 @@ fn explore_pair(run: &Run, start: &Node, cfg: &AlphaCfg, d2: usize, features: &s
                                 format!(
                                     "restart after [{}], continuation [{} ; {}]: original and rebuilt lineages differ in {} (tips {} vs {})",
                                     start.path_str(),
-                                    p.s.path[start.path.len()..].join(" ; "),
+                                    p.s.labels()[start.path_len()..].join(" ; "),
                                     a.label(),
                                     what,
                                     ts,
@@ -150,7 +150,7 @@ fn explore_pair(run: &Run, start: &Node, cfg: &AlphaCfg, d2: usize, features: &s
                         run.violation(
                             "C08",
                             format!("acceptance-differs/{}/after={}", features, a.label().split(|c| c == '(' || c == '[').next().unwrap_or("")),
-                            format!("restart after [{}], continuation [{} ; {}]: one lineage accepts, the other rejects", start.path_str(), p.s.path[start.path.len()..].join(" ; "), a.label()),
+                            format!("restart after [{}], continuation [{} ; {}]: one lineage accepts, the other rejects", start.path_str(), p.s.labels()[start.path_len()..].join(" ; "), a.label()),
                             replay,
                         );
                     }
@@ -217,7 +217,7 @@ pub fn run(run: &Run) {
             m.fee_multiplier = 70_000;
             m.dosc_speed = 7_777_777;
             m.block_txs.clear();
-            roots.push(("Custom02/non-default-scalars".into(), Node { real: Real::Sealed(f), model: m, path: std::sync::Arc::new(vec!["genesis[Custom02] relabelled at height 7 with fee_pool=123456789 fee_multiplier=70000 dosc_speed=7777777".into()]), trace: std::sync::Arc::new(vec![json!({"root": "Custom02 relabelled with non-default scalars"})]), lineage: std::sync::Arc::new(vec![h0]), salt: 0 }));
+            roots.push(("Custom02/non-default-scalars".into(), Node::new_root(Real::Sealed(f), m, "genesis[Custom02] relabelled at height 7 with fee_pool=123456789 fee_multiplier=70000 dosc_speed=7777777".to_string(), json!({"root": "Custom02 relabelled with non-default scalars"}), vec![h0])));
         }
     }
     // a history in which a DoscMint raised the DOSC speed (reached honestly, not through from_block)
@@ -231,7 +231,7 @@ pub fn run(run: &Run) {
         let s = w.genesis.clone().seal(None);
         let model = model_of(&s, &[melstructs::CoinID::zero_zero()], &builtin_pool_keys(), &[]);
         let h0 = s.header();
-        let n = Node { real: Real::Sealed(s), model, path: std::sync::Arc::new(vec!["genesis[Custom02+stakes]".into()]), trace: std::sync::Arc::new(vec![json!({"root": "Custom02 with three stakes"})]), lineage: std::sync::Arc::new(vec![h0]), salt: 0 };
+        let n = Node::new_root(Real::Sealed(s), model, "genesis[Custom02+stakes]".to_string(), json!({"root": "Custom02 with three stakes"}), vec![h0]);
         if let StepOut::Next(j) = eng.step(&n, &Action::Jump(h)) {
             roots.push((format!("Custom02+stakes@{}", h), j));
         }
